@@ -603,6 +603,12 @@ def check_property(prop, jobs, tier, level, explanation, trusted, seed=0, quiet=
             undec = [o for o in mine if o[2] not in ("SUCCESS", "FAILURE")]
             if undec and not failed:
                 errors.append("%s: %d obligations left undecided by cbmc (status %s) behind an ignored failure" % (j.name, len(undec), undec[0][2]))
+            limit = [o for o in failed if o[1].startswith("harness:")]
+            if limit:
+                # the environment model of this obligation set (typed pools, dispatch cuts, ghost operands) does not cover what the code did:
+                # nothing behind that point is meaningful, so the whole set is undecided - never a violation
+                errors.append("%s: outside the harness's environment model (%s) - undecided, not a violation" % (j.name, "; ".join(sorted(set(o[1] for o in limit)))[:300]))
+                failed = []
             unw = [o for o in failed if ".unwind." in o[0] or ".recursion" in o[0]]
             if unw:
                 errors.append("%s: unwinding bound too small for %s (undecided, not a violation)" % (j.name, ", ".join(sorted(set(o[0] for o in unw)))[:300]))
